@@ -159,6 +159,16 @@ Definition init : st :=
 (* _determine_rule_types: None = the model ran out of fuel (excluded by C03_kinds) *)
 Definition determine_types : option st := loop (S nrules) init.
 
+(* number of iterations of `while has_change[0]` that are executed (0 = out of fuel) *)
+Fixpoint passes_of (k : nat) (s : st) : nat :=
+  match k with
+  | O => 0
+  | S k' => let s' := run_pass s in
+            if oof s' then 0 else if changed s' then S (passes_of k' s') else 1
+  end.
+
+Definition pass_count : nat := passes_of (S nrules) init.
+
 End Determine.
 
 (* ------------------------------------------------------------------ textx_isinstance *)
